@@ -189,7 +189,7 @@ func encodeMsg(codec string, msg proto.Message) ([]byte, error) {
 	switch codec {
 	case "proto":
 		return proto.Marshal(msg)
-	case "json":
+	case "json", "jsonu":
 		return protojson.Marshal(msg)
 	}
 	return nil, fmt.Errorf("unknown codec %q", codec)
@@ -199,7 +199,7 @@ func decodeMsg(codec string, data []byte, into proto.Message) error {
 	switch codec {
 	case "proto":
 		return proto.Unmarshal(data, into)
-	case "json":
+	case "json", "jsonu":
 		if len(data) == 0 {
 			// an empty body is not valid JSON; report it as such
 			return errors.New("empty JSON document")
